@@ -178,9 +178,15 @@ func scenario(sn Scen, eager bool, preempt int) *explore.Scenario {
 						}
 					}
 					switch {
-					case sn.Kind == "switch" && name == "Switch+Refresh":
+					case sn.Kind == "switch" && name == "Refresh":
+						run(opByName("Refresh"), "refresh")
+					case sn.Kind == "switch" && (name == "Switch+Refresh" || name == "WriteSpec(state B)+Refresh"):
 						call := tick()
-						w.Switch()
+						if name == "Switch+Refresh" {
+							w.Switch()
+						} else {
+							_ = c.WriteSpec(c12ops.SpecB(), "multi.json") // the switch happens at the rename inside
+						}
 						ret := tick()
 						hist = append(hist, porcupine.Operation{ClientId: ti, Input: linIn{"switch"}, Call: call, Output: linOut{}, Return: ret})
 						if !sn.Auto {
@@ -284,6 +290,12 @@ func scenarios(thorough bool) []Scen {
 			out = append(out, Scen{Kind: "switch", Ops: []string{q, "Switch+Refresh"}, Auto: auto})
 		}
 		out = append(out, Scen{Kind: "switch", Ops: []string{"ListDevices", "Switch+Refresh", "InjectDevices"}, Auto: auto})
+		// the switch made by the library's own writer, against queries and against another thread's refresh
+		for _, q := range []string{"ListDevices", "GetDevice", "InjectDevices"} {
+			out = append(out, Scen{Kind: "switch", Ops: []string{q, "WriteSpec(state B)+Refresh"}, Auto: auto})
+		}
+		out = append(out, Scen{Kind: "switch", Ops: []string{"ListDevices", "WriteSpec(state B)+Refresh", "Refresh"}, Auto: auto})
+		out = append(out, Scen{Kind: "switch", Ops: []string{"InjectDevices", "WriteSpec(state B)+Refresh", "Refresh"}, Auto: auto})
 		for i := range ops {
 			for j := i; j < len(ops); j++ {
 				if ops[i].Name == "Switch+Refresh" && ops[j].Name == "Switch+Refresh" {
